@@ -146,7 +146,7 @@ pub fn run(rep: &mut Report, thorough: bool) {
     let mut rng = Rng::new(rep.seed.wrapping_mul(404_041));
     let counts: Vec<usize> = if thorough { vec![1, 2, 5, 20, 33, 64] } else { vec![1, 2, 5, 20, 33] };
     let mut plans = Vec::new();
-    let reps = if thorough { 40 } else { 12 };
+    let reps = if thorough { 500 } else { 12 };
     let mut delay_cursor = 0u32;
     for r in 0..reps {
         for &n in &counts {
